@@ -1,2 +1,2 @@
 import ScVerif.C05.Drv
-def main : IO Unit := ScVerif.Line.runDriver ScVerif.C05.handle
+def main : IO Unit := ScVerif.Line.runDriverS ([] : ScVerif.C05.Schema) ScVerif.C05.handleS
